@@ -269,8 +269,33 @@ impl<T: RealNumber> BBDTree<T> {
             }
 
             if i2_good {
+                if i2 == begin {
+                    break;
+                }
                 i2 -= 1;
             }
+        }
+
+        // When the box is narrower than the floating point resolution of its centre the cut
+        // leaves every point on one side and splitting again would never terminate:
+        // make the node a leaf that carries the exact sum and cost of its points.
+        if size == 0 || size == end - begin {
+            node.lower = Option::None;
+            node.upper = Option::None;
+            for i in begin..end {
+                for j in 0..d {
+                    node.sum[j] += data.get(self.index[i], j);
+                }
+            }
+            let count = T::from(node.count).unwrap();
+            node.cost = T::zero();
+            for i in begin..end {
+                for j in 0..d {
+                    let x = data.get(self.index[i], j) - node.sum[j] / count;
+                    node.cost += x * x;
+                }
+            }
+            return self.add_node(node);
         }
 
         node.lower = Option::Some(self.build_node(data, begin, begin + size));
